@@ -57,7 +57,7 @@ def static_cases(draw, tier, kind):
     else:
         case["intervals"] = draw(intervals_strategy(n, 130 if many else 6))
     if kind == "subset":
-        p = draw(st.integers(1, 4))
+        p = draw(st.sampled_from([1, 2, 3, 4, 2, 3, 65, 80, 130]))  # also more columns than a machine word has bits
         case["p"] = p
         case["columns"] = draw(st.sampled_from(D.COLUMN_KINDS))
         case["icolumns"] = [draw(st.lists(st.integers(0, p - 1), min_size=1, max_size=p, unique=True))
